@@ -135,7 +135,11 @@ def check_source(sh, src, filename, origin, nloc, rnd):
                     if isinstance(st_, ast.Name) and st_.id in gl and isinstance(st_.ctx, ast.Store):
                         global_pos.add((st_.lineno, st_.col_offset))
                     elif isinstance(st_, (ast.FunctionDef, ast.ClassDef, ast.AsyncFunctionDef)) and st_.name in gl:
-                        global_pos.add('def:%s' % st_.name)
+                        # `global K` + `class K:` / `def K():` in a function: the name follows the keyword
+                        import re
+                        m = re.compile(r'(?:def|class)[ \t\f]+(%s)\b' % re.escape(st_.name)).search(lines[st_.lineno - 1], st_.col_offset)
+                        if m:
+                            global_pos.add((st_.lineno, m.start(1)))
     for n in reads[:nloc]:
         if 1 <= n.lineno <= len(lines) and not lines[n.lineno - 1].isascii():
             continue
@@ -190,18 +194,21 @@ def shape_strategy():
         if k == 0:
             ms = draw(st.lists(mod, min_size=1, max_size=3, unique=True))
             parts = []
+            cont = st.sampled_from([' ', '\t', ' \\\n   ', ' \\\n'])       # `import os.path as \` + alias on the next line
             for m in ms:
                 if draw(st.booleans()):
-                    parts.append('%s%sas%s%s' % (m, w, draw(ws), draw(name)))
+                    parts.append('%s%sas%s%s' % (m, draw(cont), draw(cont), draw(name)))
                 else:
                     parts.append(m)
             return 'import%s%s' % (w, (',' + draw(ws)).join(parts))
         m = draw(mod)
         mems = draw(st.lists(st.sampled_from(member[m]), min_size=1, max_size=3, unique=True))
         parts = []
+        # inside parentheses / after a backslash the `as` and the alias may sit on later lines than the member name
+        gap = {3: st.sampled_from([' ', '  ', '\n        ', '\n']), 4: st.sampled_from([' ', ' \\\n  ', ' \\\n'])}.get(k, ws)
         for x in mems:
             alias = draw(st.one_of(st.none(), name, st.just(m.split('.')[0]), st.just(x)))
-            parts.append(x if alias is None else '%s%sas%s%s' % (x, draw(ws), draw(ws), alias))
+            parts.append(x if alias is None else '%s%sas%s%s' % (x, draw(gap), draw(gap), alias))
         if k in (1, 2):
             return 'from%s%s%simport%s%s' % (w, m, draw(ws), draw(ws), (',' + draw(ws)).join(parts))
         if k == 3:
